@@ -175,8 +175,8 @@ func c13ReplaceWord(s, old, repl string) string {
 func c13MetaNames(ls []c13Line) []string {
 	var names []string
 	for _, l := range ls {
-		if l.kind != c13Meta {
-			continue
+		if l.kind != c13Meta || len(l.text) < 4 || nd.IsSym(l.text) {
+			continue // not a declaration (an inserted blank or whitespace-only line)
 		}
 		for _, decl := range strings.Split(l.text, ";") {
 			f := strings.Fields(strings.ReplaceAll(decl, ",", " "))
@@ -272,7 +272,7 @@ func c13Transform(ls []c13Line, kind int) (out []c13Line, texts map[int]string, 
 	case 5: // regroup / reorder / join metavariable declarations
 		var ms []int
 		for i, l := range ls {
-			if l.kind == c13Meta && strings.HasPrefix(l.text, "var ") {
+			if l.kind == c13Meta && len(l.text) > 4 && !nd.IsSym(l.text) && strings.HasPrefix(l.text, "var ") && !strings.Contains(l.text, ";") {
 				ms = append(ms, i)
 			}
 		}
@@ -308,7 +308,7 @@ func c13Transform(ls []c13Line, kind int) (out []c13Line, texts map[int]string, 
 				t += "var " + n + " " + typ
 			}
 			out = append(out, c13Line{text: t, kind: c13Meta})
-		case form == 3 && i+1 < len(ls) && ls[i+1].kind == c13Meta && strings.HasPrefix(ls[i+1].text, "var "): // swap two declarations
+		case form == 3 && i+1 < len(ls) && ls[i+1].kind == c13Meta && len(ls[i+1].text) > 4 && !nd.IsSym(ls[i+1].text) && strings.HasPrefix(ls[i+1].text, "var "): // swap two declarations
 			out = append(out, ls[i+1], ls[i])
 			out = append(out, ls[i+2:]...)
 			return out, texts, "metavariable declarations reordered", true
@@ -476,6 +476,7 @@ func VerifC13Layout() {
 	nd.Assume(ok)
 	if nd.Param("TWO", 0) == 1 {
 		kind2 := nd.Choose("transform2", c13Kinds-1) // the final-newline variant only once
+		nd.Assume(!(kind <= 1 && kind2 <= 1))            // two insertions at independent places square the cost; each is covered alone and with every in-place transformation
 		vs2, texts2, what2, ok2 := c13Transform(vs, kind2)
 		nd.Assume(ok2)
 		// line indexes of the first transformation's comments shift if the second inserted above them
